@@ -192,6 +192,20 @@ CLAIMED["C11"] = {
     "technique": "TLC model checking of the walk loop + replay of all generated walks on walk.Generic + trace validation of real walker callbacks against a reflection tree",
 }
 
+CLAIMED["C02"] = {
+    "level": "exploration",
+    "text": ("PARTIAL - the Cypher half only.  MatchSem.tla gives openCypher matching semantics (MATCH / OPTIONAL MATCH sequences, kinds, directions, variable-length ranges, path "
+             "variables, relationship uniqueness, uninterpreted conditions) as a function from a query part and a finite property graph to a bag of rows.  TLC enumerates small graphs "
+             "(GraphGen.tla) and query skeletons shaped to trigger the optimiser's rules (QueryGen.tla: random clause sequences and the full anchor family); the harness runs the real "
+             "optimize.Optimize on them and on the corpus, exports every query part it rewrote (clause reordering, inbound traversal reversal) as written and as rewritten from the two "
+             "query models, and MatchSemTrace.tla requires equal bags of results on every sampled graph."),
+    "design_ref": "DESIGN.md 4/C02 and section 5",
+    "note": ("The lowerings the translator applies while emitting SQL (projection pruning, late path materialisation, predicate / limit / suffix pushdown, direction selection, exact-range and "
+             "count fast paths, aggregate traversal counts) are NOT covered: comparing optimised and unoptimised SQL needs PostgreSQL.  Only the first query part; no UNWIND, no "
+             "shortest paths; graphs are sampled per pair.  That optimize.Optimize leaves its argument alone is checked under C05."),
+    "technique": "TLA+ matching semantics evaluated by TLC on TLC-enumerated graphs for query parts exported before and after the real optimiser's rewrites",
+}
+
 CLAIMED["C04"] = {
     "level": "model_checking",
     "text": ("PgLex.tla is a model of PostgreSQL's lexical structure (strings with '' under standard_conforming_strings, E'' escapes, quoted identifiers, -- and nested /* */ comments, "
@@ -260,5 +274,5 @@ CLAIMED["C08"] = {
 _NB = "not built yet in this round (design in DESIGN.md section 4)"
 NOT_APPLICABLE = {
     "C01": "needs the emitted SQL executed on PostgreSQL; no SQL engine exists in this sandbox and a TLA+ model of PostgreSQL would verify the model, not DAWGS (DESIGN.md section 5)",
-    "C02": _NB, "C03": _NB, 
+    "C03": _NB, 
 }
